@@ -1595,6 +1595,124 @@ fn run_download(ws: &[&str], stats: &mut Stats) -> Vec<String> {
     ]
 }
 
+
+// ---------------------------------------------------------------------------------------------
+// (e) the `.symindex` call site under a write fault
+
+/// `--c16-symindex-child <sym dir> <symindex dir> <name> <breakpad id> <fsize|->`: one `load_symbol_map` of a
+/// local `.sym`, which makes `BreakpadSymbolDownloader::ensure_symindex` write the `.symindex` through
+/// `create_file_cleanly` (breakpad.rs:204-222); exit code 0 = map loaded and a lookup succeeded
+fn symindex_child_main(args: &[String]) -> ! {
+    let (sym_dir, idx_dir, name, id) = (PathBuf::from(&args[0]), PathBuf::from(&args[1]), args[2].clone(), args[3].clone());
+    if let Ok(limit) = args[4].parse::<u64>() {
+        unsafe {
+            libc::signal(libc::SIGXFSZ, libc::SIG_IGN);
+            let lim = libc::rlimit { rlim_cur: limit, rlim_max: limit };
+            libc::setrlimit(libc::RLIMIT_FSIZE, &lim);
+        }
+    }
+    let debug_id = debugid::DebugId::from_breakpad(&id).expect("debug id");
+    let rt = tokio::runtime::Builder::new_current_thread().enable_all().build().unwrap();
+    let ok = rt.block_on(async move {
+        let config = wholesym::SymbolManagerConfig::new().breakpad_symbol_dir(sym_dir).breakpad_symindex_cache_dir(idx_dir);
+        let sm = wholesym::SymbolManager::with_config(config);
+        match sm.load_symbol_map(&name, debug_id).await {
+            Ok(map) => map.lookup(wholesym::LookupAddress::Relative(0x1004)).await.is_some(),
+            Err(_) => false,
+        }
+    });
+    std::process::exit(if ok { 0 } else { 1 });
+}
+
+fn symindex_setup(funcs: usize, seed: u64) -> (String, debugid::DebugId, String, Vec<u8>) {
+    let name = "libverif.so".to_string();
+    let id_hex = format!("{:032X}0", (seed as u128).wrapping_mul(0x9E37_79B9_7F4A_7C15_F39C_C060_5CED_C835) | 1);
+    let debug_id = debugid::DebugId::from_breakpad(&id_hex).expect("debug id");
+    let text = sym_file_text(funcs, seed, &debug_id.breakpad().to_string(), &name);
+    let mut creator = samply_symbols::BreakpadIndexCreator::new();
+    for ch in text.as_bytes().chunks(1000) {
+        creator.consume(ch);
+    }
+    let index = creator.finish().expect("index of generated .sym");
+    (name, debug_id, text, index)
+}
+
+fn run_symindex_fault(ws: &[&str], stats: &mut Stats) -> Vec<String> {
+    let funcs = kv_num(ws, "funcs", 100);
+    let seed = kv_num(ws, "seed", 1) as u64;
+    let fsize = kv(ws, "fsize").unwrap_or("-").to_string();
+    let dir = work_dir();
+    let (name, debug_id, text, expected) = symindex_setup(funcs, seed);
+    if kv_num(ws, "isize", expected.len()) != expected.len() {
+        let _ = std::fs::remove_dir_all(&dir);
+        return vec!["bad-op".into()];
+    }
+    let sym_dir = dir.join("syms");
+    let idx_dir = dir.join("symindex");
+    let rel = format!("{name}/{}/{name}.sym", debug_id.breakpad());
+    let sym_path = sym_dir.join(&rel);
+    std::fs::create_dir_all(sym_path.parent().unwrap()).unwrap();
+    std::fs::write(&sym_path, &text).unwrap();
+    let symindex_path = idx_dir.join(&rel).with_extension("symindex");
+    let expected = Arc::new(expected);
+    let exp2 = expected.clone();
+    let observer = Observer::start(symindex_path.clone(), move |p| match std::fs::read(p) {
+        Ok(b) => {
+            if b == *exp2 {
+                Class::Complete(0)
+            } else {
+                Class::Bad
+            }
+        }
+        Err(_) => Class::Absent,
+    });
+    let exe = std::env::current_exe().unwrap();
+    let run_child = |fsize: &str| -> &'static str {
+        let mut cmd = Command::new(&exe);
+        cmd.arg("--c16-symindex-child").arg(&sym_dir).arg(&idx_dir).arg(&name).arg(debug_id.breakpad().to_string()).arg(fsize);
+        cmd.stdin(Stdio::null()).stdout(Stdio::null()).stderr(Stdio::null());
+        match cmd.status() {
+            Ok(st) if st.code() == Some(0) => "ok",
+            Ok(st) if st.code() == Some(1) => "err",
+            Ok(_) => "crashed",
+            Err(_) => "err:spawn",
+        }
+    };
+    let classify = |p: &Path| -> String {
+        match std::fs::read(p) {
+            Ok(b) if b == *expected => "complete".to_string(),
+            Ok(b) => format!("partial:{}", b.len()),
+            Err(_) => "absent".to_string(),
+        }
+    };
+    let first = run_child(&fsize);
+    let after_first = classify(&symindex_path);
+    let retry = run_child("-");
+    let after_retry = classify(&symindex_path);
+    let (n_obs, bad, _c) = observer.finish();
+    stats.add("symindexfault_observations", n_obs);
+    stats.bump(&format!("symindexfault_first_{}", after_first.split(':').next().unwrap_or("?")));
+    let _ = std::fs::remove_dir_all(&dir);
+    vec![
+        format!("symindexfault lookup={first}"),
+        format!("observations bad={bad}"),
+        format!("final symindex={after_first}"),
+        format!("retry lookup={retry} symindex={after_retry}"),
+    ]
+}
+
+/// the `symindexfault` op with the limit placed relative to the size of the index (`where_` in per mille)
+fn symindexfault_line(where_: u64, funcs: usize, seed: u64) -> String {
+    let (_, _, _, index) = symindex_setup(funcs, seed);
+    let isize = index.len() as u64;
+    let fsize = match where_ {
+        1000 => isize,
+        999 => isize - 1,
+        w => isize * w / 1000,
+    };
+    format!("symindexfault fsize={fsize} funcs={funcs} isize={isize} seed={seed}")
+}
+
 // ---------------------------------------------------------------------------------------------
 
 pub struct C16;
@@ -1693,6 +1811,10 @@ impl Prop for C16 {
         }
         // (d) the download call site: fault-free, write error in the first piece, inside the LAST piece (one
         // byte short of the whole file included), exactly at the end (no error), connection lost early / late
+        // (e) the `.symindex` writer under a write fault: limit at 0, in the middle, one byte short, exactly the size
+        for (k, w) in [0u64, 500, 999, 1000].iter().enumerate() {
+            push(format!("symindexfault-{w}"), symindexfault_line(*w, 40 + 100 * k, next_seed()));
+        }
         for (k, what) in ["none", "fsize-first", "fsize-last", "fsize-lastbyte", "fsize-exact", "abort-first", "abort-last"].iter().enumerate() {
             push(format!("download-{what}"), download_line(what, 300 + 40 * k, 2048, next_seed()));
         }
@@ -1703,6 +1825,9 @@ impl Prop for C16 {
         if rng.chance(1, 25) {
             let m = rng.range(2, 8);
             return vec![format!("symindex managers={m} funcs={} seed={seed}", rng.range(1, 600))];
+        }
+        if rng.chance(1, 40) {
+            return vec![symindexfault_line(*rng.pick(&[0u64, 100, 500, 900, 999, 1000]), rng.range(5, 500) as usize, seed)];
         }
         if rng.chance(1, 30) {
             let what = *rng.pick(&["none", "fsize-first", "fsize-last", "fsize-last", "fsize-lastbyte", "fsize-exact", "abort-first", "abort-last"]);
@@ -1777,6 +1902,7 @@ impl C16 {
             Some("round") => run_round(&ws, stats),
             Some("symindex") => run_symindex(&ws, stats),
             Some("download") => run_download(&ws, stats),
+            Some("symindexfault") => run_symindex_fault(&ws, stats),
             _ => vec!["bad-op".into()],
         }
     }
@@ -1789,6 +1915,9 @@ fn main() {
     }
     if args.get(1).map(|s| s.as_str()) == Some("--c16-download-child") {
         download_child_main(&args[2..]);
+    }
+    if args.get(1).map(|s| s.as_str()) == Some("--c16-symindex-child") {
+        symindex_child_main(&args[2..]);
     }
     verif_harness::runner::run_main(&C16);
 }
